@@ -37,8 +37,14 @@ def trace_check(work, out, jobs, monitors, spec="TraceProps", tag="t", extra_env
     t2 = time.time()
     nruns, nevents = count_runs(files)
     states = sum(r["states"] for r in results)
+    mstats = {}
+    for r in results:
+        for k, v in (r.get("mstats") or {}).items():
+            mstats[k] = mstats.get(k, 0) + v
     nviol = 0
     fsmis = 0
+    detailed = 0
+    index = None
     for r in results:
         for v in r["verdicts"]:
             if v.get("fsmis"):
@@ -46,7 +52,17 @@ def trace_check(work, out, jobs, monitors, spec="TraceProps", tag="t", extra_env
                 log("[fsmodel] mismatch job=%s run=%s at %s" % (v["job"], v["run"], v["fsmis"][:3]))
             if not v.get("viol"):
                 continue
-            evs = find_run(files, v["job"], v["run"]) or []
+            nviol += 1
+            detailed += 1
+            if detailed > 25:
+                # enough witnesses collected; keep counting only
+                continue
+            if index is None:
+                index = {}
+                for tf in files:
+                    for j, rno, evs_ in split_runs(tf):
+                        index[(j, rno)] = evs_ if len(index) < 0 else tf
+            evs = find_run([index.get((v["job"], v["run"]), files[0])], v["job"], v["run"]) or []
             job = byid.get(v["job"], {})
             mons = sorted(set(m for _, m in v["viol"]))
             for mon in mons:
@@ -58,7 +74,6 @@ def trace_check(work, out, jobs, monitors, spec="TraceProps", tag="t", extra_env
                                event={k: x for k, x in ev.items() if k != "snap"},
                                trace=slim_events(evs, 400))
                 out.report(key, payload)
-                nviol += 1
     if fsmis and fsmis_fatal:
         raise ToolError("filesystem model disagrees with %d recorded runs" % fsmis)
     # a few sample runs for the evidence file
@@ -68,7 +83,7 @@ def trace_check(work, out, jobs, monitors, spec="TraceProps", tag="t", extra_env
             samples.append(dict(job=j, run=rno, sched=evs[-1].get("sched"), events=slim_events(evs, 12)))
             break
     st = dict(runs=nruns, events=nevents, states=states, trace_s=t1 - t0, tlc_s=t2 - t1, violations=nviol,
-              fsmodel_mismatches=fsmis, samples=samples, files=files, conf_ops=0, drifts=[])
+              fsmodel_mismatches=fsmis, samples=samples, files=files, conf_ops=0, drifts=[], mstats=mstats)
     if conform:
         c = conformance(work, files, tag=tag + "k")
         st["conf_ops"] = c["ops"]
